@@ -62,13 +62,15 @@ Encode(t) == [i \in 1..Len(t) |-> LetterDigit(t[i])]
 \* rev_comp: k times { rk := rk*4 + ((x mod 4) xor 3); x := x div 4 }
 RevCompLoop(x, k) ==
   LET st[i \in 0..k] == IF i = 0 THEN <<0, x>>
-                        ELSE <<4 * st[i-1][1] + (3 - (st[i-1][2] % 4)), st[i-1][2] \div 4>>
+                        ELSE LET p == st[i-1]     \* (single reference: TLC does not memoise st)
+                             IN <<4 * p[1] + (3 - (p[2] % 4)), p[2] \div 4>>
   IN st[k][1]
 
 \* numeric_to_kmer: push letter of low digit k times, then reverse the string
 NumericToKmerLoop(x, k) ==
   LET st[i \in 0..k] == IF i = 0 THEN <<<<>>, x>>
-                        ELSE <<Append(st[i-1][1], Letters[(st[i-1][2] % 4) + 1]), st[i-1][2] \div 4>>
+                        ELSE LET p == st[i-1]
+                             IN <<Append(p[1], Letters[(p[2] % 4) + 1]), p[2] \div 4>>
   IN Rev(st[k][1])
 
 \* ------------------------------------------------------------------------
